@@ -401,7 +401,8 @@ def write_airports(chk: Check, airports):
            '"home_link","wikipedia_link","keywords"\n')
     rows = [hdr]
     for i, (code, (lon, lat)) in enumerate(airports.items()):
-        rows.append(f'"{9000 + i}","K{code}","large_airport","Harness {code}","{lat!r}","{lon!r}","100","NA","US",'
+        elev_ft = [0, 13, 100, 1500, 5355, 9000, 13300][(i * 3 + i // 7) % 7]      # sea level to La Paz
+        rows.append(f'"{9000 + i}","K{code}","large_airport","Harness {code}","{lat!r}","{lon!r}","{elev_ft}","NA","US",'
                     f'"US-XX","X","yes","K{code}","{code}","K{code}","","","",""\n')
     (d / 'airports.csv').write_text(''.join(rows))
     return chk.tmp / 'data'
@@ -481,12 +482,19 @@ def check_tracks(chk: Check, tracks):
     geod = fresh_geod()
     exprs, meta, defs = [], [], []
     impl_out = {}
+    objs: dict = {}          # obj_key -> GroundTrack object handed out earlier (kept alive, queried again later)
     for trk in tracks:
         legs = leg_table(trk)
         trk['_legs'] = legs
         defs.append(coq_track_def(trk, legs))
         try:
-            gt = impl_track(trk)
+            if trk.get('reuse') is not None and trk['reuse'] in objs:
+                gt = objs[trk['reuse']]            # the object created earlier, with the options it was created with
+                chk.count('track-object-queried-again-after-others-were-created')
+            else:
+                gt = impl_track(trk)
+                if trk.get('obj_key') is not None:
+                    objs[trk['obj_key']] = gt
             index = [float(x) for x in gt.index]
             info = ['ok', index, float(gt.total_distance), [float(a) for a in gt.azimuths], len(gt)]
         except Exception as e:  # noqa: BLE001
@@ -497,6 +505,9 @@ def check_tracks(chk: Check, tracks):
             continue
         if trk.get('queries') is None:
             trk['queries'] = gen_queries(chk.rng, index, trk.get('nq', 10))
+            if trk.get('reuse') is not None:
+                trk['queries'] += [{'op': 'step', 'a': 0.5 * index[-1], 'b': index[-1]},
+                                   {'op': 'step', 'a': index[-1], 'b': 1000.0}, {'op': 'step', 'a': 0.0, 'b': 0.25 * index[-1]}]
         exprs.append(f'@index{SFX} FNum trk_{trk["id"]}')
         meta.append((trk, None))
         for q in trk['queries']:
@@ -772,7 +783,22 @@ def run(chk: Check):
                                                None: 'undetermined'}[variant]
     check_laws(chk)
     ctracks, cpairs = load_corpus(chk)
-    tracks = ctracks + [dict(gen_track(chk.rng, 1000 + i), nq=chk.n(10, 14)) for i in range(chk.n(110, 900))]
+    tracks = list(ctracks)
+    for i in range(chk.n(110, 900)):
+        t = dict(gen_track(chk.rng, 1000 + i), nq=chk.n(10, 14))
+        tracks.append(t)
+        if len(t['wps']) == 2 and chk.rng.random() < 0.3:
+            # object identity: the same end points are requested again with the other option (and reversed), then the FIRST
+            # object is used again — each object must keep behaving as it was created
+            t['obj_key'] = f'k{i}'
+            other = {'kind': t['kind'] + '/same-ends-other-mode', 'wps': [list(w) for w in t['wps']], 'allow': not t['allow'], 'nq': 4}
+            rev = {'kind': t['kind'] + '/reversed-ends', 'wps': [list(w) for w in reversed(t['wps'])],
+                   'allow': chk.rng.random() < 0.5, 'nq': 3}
+            again = {'kind': t['kind'] + '/first-object-again', 'wps': [list(w) for w in t['wps']], 'allow': t['allow'],
+                     'reuse': t['obj_key'], 'nq': 8,
+                     'after': [{k: v for k, v in x.items() if k != 'after'} for x in (dict(t, queries=[]), dict(other, queries=[]),
+                                                                                      dict(rev, queries=[]))]}
+            tracks += [other, rev, again]
     for i, t in enumerate(tracks):
         t['id'] = i
     setup_config()
@@ -797,12 +823,14 @@ def replay(chk: Check, rp):
     case = rp.get('case') or {}
     if 'track' in case:
         t = dict(case['track'])
-        t['id'] = 0
         q = case.get('q')
         t['queries'] = [q] if isinstance(q, dict) else []
+        seq = [dict(x) for x in t.get('after', [])] + [t]      # objects created before this one, in order
+        for i_, x in enumerate(seq):
+            x['id'] = i_
         setup_config()
         try:
-            check_tracks(chk, [t])
+            check_tracks(chk, seq)
         finally:
             teardown_config()
     elif 'mission' in case:
